@@ -31,8 +31,11 @@ ALPHABET = {
     "r#=arg0": ("i32", "raw", 0, "arg0"),
     "N(=fn)": ("N", "destr", 0, FN),
     "r#=fn": ("i32", "raw", 0, FN),
+    # single-binding destructurings whose binding is a raw identifier (keyword / non-keyword)
+    "N(r#kw)": ("N", "destr", 0, "r#type"),
+    "&r#id": ("refi", "destr", 0, "r#v_raw"),
 }
-SPECIAL_ONCE = {"r#=arg0", "=fn", "=fn_", "=fn__", "=arg0", "=arg1", "=_arg1", "N(=fn)", "r#=fn"}
+SPECIAL_ONCE = {"N(r#kw)", "&r#id", "r#=arg0", "=fn", "=fn_", "=fn__", "=arg0", "=arg1", "=_arg1", "N(=fn)", "r#=fn"}
 
 
 def valid(lst):
